@@ -55,6 +55,11 @@ func gen(seed int64) Case {
 		return Case{Seed: seed, Version: []int16{7, 9, 11, 12, 13}[r.Intn(5)], Topics: 1 + r.Intn(3), Parts: []int{130, 400}[r.Intn(2)], NameLen: []int{3, 17, 127, 200}[r.Intn(4)], Records: 1,
 			Codec: "none", Txn: r.Intn(5) == 0, ClientID: []int{0, 3}[r.Intn(2)], MaxWrite: []int32{4096, 8192}[r.Intn(2)], MaxBatch: 1024, ValueClass: r.Intn(2)}
 	}
+	if seed%6 == 2 {
+		// very compressible large batches: the compact length prefix written before compression shrinks by more than one byte
+		return Case{Seed: seed, Version: []int16{8, 9, 11, 13}[r.Intn(4)], Topics: 1 + r.Intn(2), Parts: 1 + r.Intn(2), NameLen: 5, Records: 1 + r.Intn(2),
+			Codec: []string{"zstd", "gzip", "zstd", "lz4", "snappy"}[r.Intn(5)], ClientID: 3, MaxWrite: 1 << 20, MaxBatch: 1 << 18, ValueClass: 4 + r.Intn(2)}
+	}
 	if seed%6 == 1 {
 		// the first request on a connection is packed before the produce version is known: short names against topic ids
 		return Case{Seed: seed, Version: []int16{12, 13, 13}[r.Intn(3)], Topics: []int{40, 120}[r.Intn(2)], Parts: 1 + r.Intn(3), NameLen: []int{3, 5, 11}[r.Intn(3)], Records: 1,
@@ -432,7 +437,11 @@ func TestFrames(t *testing.T) {
 		}
 		ctx, cancel := context.WithTimeout(context.Background(), 60*time.Second)
 		sent := map[string][]string{} // topic/partition -> values in produce order
-		vsize := []int{0, 10, 100, 300}[c.ValueClass]
+		vsize := []int{0, 10, 100, 300, 10000, 20000}[c.ValueClass]
+		fill := "v"
+		if c.ValueClass >= 4 {
+			fill = "\x00"
+		}
 		for round := 0; round < 2; round++ { // the first request on a connection is sized before the produce version is known
 			if c.Txn {
 				if err := p.BeginTransaction(); err != nil {
@@ -442,7 +451,7 @@ func TestFrames(t *testing.T) {
 			for _, tp := range topics {
 				for q := 0; q < c.Parts; q++ {
 					for i := 0; i < c.Records; i++ {
-						val := fmt.Sprintf("%s/%d/%d/%d/", tp[:3], q, round, i) + strings.Repeat("v", vsize+i%3)
+						val := fmt.Sprintf("%s/%d/%d/%d/", tp[:3], q, round, i) + strings.Repeat(fill, vsize+i%3)
 						k := fmt.Sprintf("%s/%d", tp, q)
 						sent[k] = append(sent[k], val)
 						records++
